@@ -211,6 +211,14 @@ func verifStreamDecode(n, maxCalls, cap0 int, withFail bool) {
 			break
 		}
 		want = append(want, whole[pos+y:pos+x])
+		if whole[pos+y] == 't' {
+			// the fast skipper takes any 4 bytes after 't' as the literal; a real literal (true)
+			// contains no white space, and the decoder stub's "decoding the frame succeeds" only
+			// makes sense for such frames
+			for k := pos + y + 1; k < pos+x; k++ {
+				v.Assume(!verifIsSpace(whole[k]))
+			}
+		}
 		pos += x
 	}
 
